@@ -676,6 +676,12 @@ func calculateTextEditRange(content string, pos protocol.Position, ctxType Compl
 		return nil
 	}
 
+	// the replaced text is what was typed up to the cursor: never start after it
+	// (cursor inside a directive keyword, or inside the blanks after an amount)
+	if startByte > byteCol {
+		startByte = byteCol
+	}
+
 	startChar := lsputil.ByteOffsetToUTF16(line, startByte)
 	return &protocol.Range{
 		Start: protocol.Position{Line: pos.Line, Character: uint32(startChar)},
